@@ -331,7 +331,7 @@ func (c *Ctx) typeFacts(v Term, t types.Type, depth int) []Term {
 			out = append(out, fmt.Sprintf("(and (<= %s %s) (<= %s %s))", lo, v, v, hi))
 		}
 	case *types.Slice:
-		out = append(out, fmt.Sprintf("(and (<= 0 (soff %s)) (<= 0 (slen %s)) (<= (slen %s) (scap %s)) (=> (= (sref %s) null) (= (scap %s) 0)))", v, v, v, v, v, v))
+		out = append(out, fmt.Sprintf("(and (<= 0 (soff %s)) (<= 0 (slen %s)) (<= (slen %s) (scap %s)) (<= (scap %s) 9223372036854775807) (=> (= (sref %s) null) (= (scap %s) 0)))", v, v, v, v, v, v, v))
 	case *types.Struct:
 		if depth < 2 {
 			for i := 0; i < u.NumFields(); i++ {
